@@ -88,7 +88,7 @@ func c15Configs(role string, ca bool) (cc, sc *gmtls.Config, eutIsClient bool, e
 	switch role {
 	case "client_gm", "server_gm", "client_gm_gcm", "server_gm_gcm":
 		sc = &gmtls.Config{GMSupport: &gmtls.GMSupport{}, Certificates: []gmtls.Certificate{f.sig, f.enc}}
-	case "server_auto_gm", "server_auto_tls":
+	case "server_auto_gm", "server_auto_tls", "server_auto_tls10":
 		sig, enc, rsaC := f.sig, f.enc, f.rsa
 		sc, err = gmtls.NewBasicAutoSwitchConfig(&sig, &enc, &rsaC)
 		if err != nil {
